@@ -218,3 +218,39 @@ class LemmaTask(Task):
                     d['replay'] = {'confirmed': None, 'note': 'replay harness error: ' + traceback.format_exc()[-500:]}
             out['results'].append(d)
         return out
+
+
+class RawSmtTask(Task):
+    """Lemmas given directly as SMT-LIB text (string theory): discharged by the cvc5 / z3 command-line solvers."""
+    def __init__(self, name, items):
+        self.name = name
+        self.items = items     # list of (obligation name, smt2 text expecting unsat)
+
+    def run(self, tier):
+        import subprocess
+        import tempfile
+        import time as _t
+        out = {'results': [], 'functions': [], 'notes': [], 'bounded': []}
+        for oname, text in self.items:
+            t0 = _t.time()
+            status, backend = 'unknown', 'cvc5-cli'
+            for bname, cmd in (('cvc5-cli', ['/usr/bin/cvc5', '--strings-exp', '--tlimit=60000']), ('z3-5.1-cli', ['z3-new', '-T:60']), ('z3-4.8-cli', ['/usr/bin/z3', '-T:60'])):
+                with tempfile.NamedTemporaryFile('w', suffix='.smt2', delete=False) as f:
+                    f.write(text)
+                    path = f.name
+                try:
+                    p = subprocess.run(cmd + [path], capture_output=True, text=True, timeout=90)
+                    ans = (p.stdout.strip().splitlines() or ['unknown'])[0].strip()
+                except (subprocess.TimeoutExpired, FileNotFoundError):
+                    ans = 'unknown'
+                finally:
+                    os.unlink(path)
+                if ans == 'unsat':
+                    status, backend = 'discharged', bname
+                    break
+                if ans == 'sat':
+                    status, backend = 'refuted', bname
+                    break
+            out['results'].append({'obligation': oname, 'kind': 'lemma', 'status': status, 'backend': backend, 'seconds': round(_t.time() - t0, 3),
+                                   'smt_size': len(text), **({'replay': {'confirmed': None, 'note': 'string lemma refuted by the solver (no model extraction through the CLI)'}} if status == 'refuted' else {})})
+        return out
